@@ -1,5 +1,218 @@
-use crate::run::{Ctx, Ev};
+//! C14 - pause, closed markets and emergency shutdown stop trading (gate matrix in forks).
+use serde_json::json;
+use std::collections::BTreeMap;
+
+use crate::gen::current_roles;
+use crate::refmodel::mul_div;
+use crate::run::{Ctx, Ev, Runner};
+use crate::types::*;
 use crate::world::World;
-pub fn step(_ctx: &Ctx, _w: &World, _ev: &mut Ev) {}
-pub fn gates(_r: &mut crate::run::Runner) {}
-pub fn shutdown_subsets(_r: &mut crate::run::Runner) {}
+
+pub fn step(ctx: &Ctx, w: &World, ev: &mut Ev) {
+    if w.cfg.kind != WorldKind::Standard {
+        return;
+    }
+    // registry: no duplicates, at most three, membership queries agree
+    let reg = &ctx.post.registry;
+    let mut s = reg.clone();
+    s.sort();
+    s.dedup();
+    let kind = ctx.step.op.kind();
+    if matches!(ctx.step.op, Op::AddVamm { .. } | Op::RemoveVamm { .. }) {
+        ev.eval(true, &("registry", kind, reg.len(), ctx.out.ok), || json!({"registry": reg, "op": kind, "accepted": ctx.out.ok}));
+    }
+    if s.len() != reg.len() {
+        ev.violation("registry", "duplicate", json!({"registry": reg}));
+    }
+    if reg.len() > 3 {
+        ev.violation("registry", "more_than_three", json!({"registry": reg}));
+    }
+    for (i, va) in w.addrs.vamms.iter().enumerate() {
+        if let Ok(x) = w.q(&w.addrs.insurance_fund, json!({"is_vamm": {"vamm": va}})) {
+            let m = x["is_vamm"].as_bool().unwrap_or(false);
+            if m != reg.iter().any(|r| r == va) {
+                ev.violation("registry", "membership_disagrees", json!({"vamm": i, "is_vamm": m, "registry": reg}));
+            }
+        }
+    }
+    // main-history gate checks
+    if ctx.out.ok {
+        if ctx.model.paused && matches!(ctx.step.op, Op::Open { .. } | Op::Close { .. } | Op::Deposit { .. } | Op::Withdraw { .. }) {
+            ev.violation("paused_succeeded", &format!("{},main", kind), json!({}));
+        }
+        if let Some(v) = ctx.step.op.vamm_idx() {
+            if ctx.step.op.is_engine_user_op() && v < ctx.pre.vamms.len() {
+                let vo = &ctx.pre.vamms[v];
+                if vo.ok && !vo.open && !matches!(ctx.step.op, Op::Deposit { .. }) {
+                    ev.violation("closed_succeeded", &format!("{},main", kind), json!({"vamm": v}));
+                }
+                if vo.ok && !vo.registered && !matches!(ctx.step.op, Op::Deposit { .. } | Op::Close { .. }) {
+                    ev.violation("unregistered_succeeded", &format!("{},main", kind), json!({"vamm": v}));
+                }
+            }
+        }
+    }
+}
+
+fn set_gates(w: &mut World, roles: &crate::gen::RolesNow, v: usize, paused_now: bool, open_now: bool, reg_now: bool, pause: bool, open: bool, reg: bool) -> bool {
+    let mut ok = true;
+    if paused_now != pause {
+        ok &= w.exec(&roles.pauser, &Op::SetPause { pause }, 0, None).ok;
+    }
+    if open_now != open {
+        ok &= w.exec(&roles.vamm_owner[v], &Op::SetOpen { vamm: v, open }, 0, None).ok;
+    }
+    if reg_now != reg {
+        let name = format!("@vamm{}", v);
+        let op = if reg { Op::AddVamm { vamm: name } } else { Op::RemoveVamm { vamm: name } };
+        ok &= w.exec(&roles.if_owner, &op, 0, None).ok;
+    }
+    ok
+}
+
+/// every engine operation under every combination of paused/open/registered of one vAMM
+pub fn gates(r: &mut Runner) {
+    if r.w.cfg.kind != WorldKind::Standard {
+        return;
+    }
+    let d = r.w.d;
+    let roles = current_roles(r);
+    let nv = r.w.addrs.vamms.len();
+    let v = r.steps_done % nv;
+    let vo = r.obs.vamms[v].clone();
+    if !vo.ok || r.w.cfg.vamms[v].decimals != r.w.cfg.coll.decimals() {
+        return;
+    }
+    // actors: a trader with a position on this vAMM if there is one, and one without
+    let holders: Vec<String> = r.obs.pos.iter().filter(|((vv, _), p)| *vv == v && p.size != 0).map(|((_, t), _)| t.clone()).collect();
+    let with_pos = holders.first().cloned();
+    let trader = with_pos.clone().unwrap_or_else(|| "trader0".to_string());
+    let n = (vo.q / 5_000).max(1000);
+    let open_op = Op::Open { vamm: v, side: match r.obs.position(v, &trader) { Some(p) if p.size < 0 => Side::Sell, _ => Side::Buy }, margin: mul_div(n, d, d).unwrap_or(n).max(1), leverage: d, limit: 0 };
+    let open_funds = crate::gen::native_funds(r, &trader, &open_op);
+    let dep_amt = (d / 100).max(1);
+    let mut ops: Vec<(String, Op, U)> = vec![
+        (trader.clone(), open_op, open_funds),
+        (trader.clone(), Op::Close { vamm: v, limit: 0 }, 0),
+        (trader.clone(), Op::Deposit { vamm: v, amount: dep_amt }, if r.w.cfg.coll.is_native() { dep_amt } else { 0 }),
+        (trader.clone(), Op::Withdraw { vamm: v, amount: 1 }, 0),
+        ("keeper".to_string(), Op::PayFunding { vamm: v }, 0),
+    ];
+    for h in holders.iter().take(2) {
+        ops.push(("liquidator".to_string(), Op::Liquidate { vamm: v, trader: h.clone(), limit: 0 }, 0));
+    }
+    let (p0, o0, g0) = (r.model.paused, vo.open, vo.registered);
+    let mut table: BTreeMap<(bool, bool, bool, usize), bool> = BTreeMap::new();
+    for pause in [false, true] {
+        for open in [true, false] {
+            for reg in [true, false] {
+                if reg && !g0 && r.obs.registry.len() >= 3 {
+                    continue;
+                }
+                for (oi, (actor, op, funds)) in ops.iter().enumerate() {
+                    let (a, o, f) = (actor.clone(), op.clone(), *funds);
+                    let rl = &roles;
+                    let (set_ok, out, changed) = r.fork(|w| {
+                        let set_ok = set_gates(w, rl, v, p0, o0, g0, pause, open, reg);
+                        let before = w.dump();
+                        let out = w.exec(&a, &o, f, None);
+                        let changed = !out.ok && w.dump() != before;
+                        (set_ok, out, changed)
+                    });
+                    if !set_ok {
+                        r.ev.count("gate_setup_failed");
+                        continue;
+                    }
+                    table.insert((pause, open, reg, oi), out.ok);
+                    let kind = op.kind();
+                    let gate_closed = pause || !open || !reg;
+                    r.ev.eval(gate_closed, &(kind, pause, open, reg), || json!({"op": kind, "paused": pause, "vamm_open": open, "registered": reg, "accepted": out.ok}));
+                    if !gate_closed && out.ok {
+                        r.ev.count(&format!("ungated_ok/{}", kind));
+                    }
+                    let user = matches!(op, Op::Open { .. } | Op::Close { .. } | Op::Deposit { .. } | Op::Withdraw { .. });
+                    if pause && user {
+                        if out.ok {
+                            r.ev.violation("paused_succeeded", kind, json!({"vamm": v, "open": open, "registered": reg}));
+                        } else if changed {
+                            r.ev.violation("paused_succeeded", &format!("{},state_changed", kind), json!({"vamm": v}));
+                        }
+                    }
+                    if !open && !matches!(op, Op::Deposit { .. }) && out.ok {
+                        r.ev.violation("closed_succeeded", kind, json!({"vamm": v, "paused": pause, "registered": reg}));
+                    }
+                    if !reg && !matches!(op, Op::Deposit { .. } | Op::Close { .. }) && out.ok {
+                        r.ev.violation("unregistered_succeeded", kind, json!({"vamm": v, "paused": pause, "open": open}));
+                    }
+                }
+            }
+        }
+    }
+    // availability as a differential: the pause flag must not change the outcome of Liquidate / PayFunding
+    for (oi, (_, op, _)) in ops.iter().enumerate() {
+        if !matches!(op, Op::Liquidate { .. } | Op::PayFunding { .. }) {
+            continue;
+        }
+        for open in [true, false] {
+            for reg in [true, false] {
+                if let (Some(a), Some(b)) = (table.get(&(false, open, reg, oi)), table.get(&(true, open, reg, oi))) {
+                    if *a {
+                        r.ev.count(&format!("keeper_op_available/{}", op.kind()));
+                    }
+                    if a != b {
+                        r.ev.violation("pause_blocks_keeper", op.kind(), json!({"unpaused_ok": a, "paused_ok": b, "open": open, "registered": reg}));
+                    }
+                }
+            }
+        }
+    }
+}
+
+/// shutdown from every subset of registered vAMMs being already closed
+pub fn shutdown_subsets(r: &mut Runner) {
+    if r.w.cfg.kind != WorldKind::Standard {
+        return;
+    }
+    let roles = current_roles(r);
+    let ifund = r.w.addrs.insurance_fund.clone();
+    let regd: Vec<usize> = (0..r.w.addrs.vamms.len()).filter(|i| r.obs.vamms[*i].ok && r.obs.vamms[*i].registered && r.obs.vamms[*i].insurance_fund == ifund).collect();
+    if regd.is_empty() {
+        return;
+    }
+    let n = regd.len();
+    for mask in 0..(1u32 << n) {
+        let closed_before: Vec<usize> = regd.iter().enumerate().filter(|(j, _)| mask & (1 << j) != 0).map(|(_, i)| *i).collect();
+        let rl = &roles;
+        let obs_open: Vec<bool> = regd.iter().map(|i| r.obs.vamms[*i].open).collect();
+        let rg = regd.clone();
+        let cb = closed_before.clone();
+        let (setup_ok, call_ok, still_open, err) = r.fork(|w| {
+            let mut setup_ok = true;
+            for (j, i) in rg.iter().enumerate() {
+                let want_open = !cb.contains(i);
+                if obs_open[j] != want_open {
+                    setup_ok &= w.exec(&rl.vamm_owner[*i], &Op::SetOpen { vamm: *i, open: want_open }, 0, None).ok;
+                }
+            }
+            let out = w.exec(&rl.if_owner, &Op::Shutdown, 0, None);
+            let mut still: Vec<usize> = vec![];
+            for i in rg.iter() {
+                let o = crate::obs::observe_vamm(w, *i);
+                if o.open {
+                    still.push(*i);
+                }
+            }
+            (setup_ok, out.ok, still, out.err)
+        });
+        if !setup_ok {
+            r.ev.count("shutdown_setup_failed");
+            continue;
+        }
+        r.ev.eval(true, &("shutdown", n, mask), || json!({"shutdown_with_already_closed": closed_before, "registered": regd, "call_ok": call_ok, "left_open": still_open}));
+        r.ev.count(&format!("shutdown_subset/{}of{}", closed_before.len(), n));
+        if !still_open.is_empty() {
+            let class = if closed_before.is_empty() { "none_closed" } else if closed_before.len() == n { "all_closed" } else { "some_closed" };
+            r.ev.violation("shutdown_left_open", class, json!({"registered": regd, "closed_before": closed_before, "left_open": still_open, "call_ok": call_ok, "error": crate::run::tail(&err, 120)}));
+        }
+    }
+}
